@@ -162,7 +162,14 @@ def dictionary(scn):
             pc += 1
         words.update({a, a | (1 << 160), a | (0xDEAD << 200)})
     words.update({0xC0FFEE, 0xC0FFEE | (1 << 255)})
-    return sorted(words)[:400]
+    # distances from the hashes of the small slots to 2^256: the inputs on which keccak(slot) + index wraps
+    from eth_hash.auto import keccak
+
+    for slot in (0, 1, 2):
+        h = int.from_bytes(keccak(slot.to_bytes(32, "big")), "big")
+        for d in (0, 1, 2, 5, 6, 9, 33, 40):
+            words.update({((1 << 256) - h - d) % (1 << 256), ((1 << 256) - h + d) % (1 << 256)})
+    return sorted(words)[:600]
 
 
 _sym = None
